@@ -67,7 +67,7 @@ CLAIMED = {
              note='Trusted: hand model Constness.v (tied by the verdict matrix), the mapping of each test case to an lvalue term, extraction. const-qualified struct fields are outside the property.'),
  'C06': dict(technique='Coq proofs of the position index (binary search) and of line/column resolution over the tracker as the lexer drives it; diagnostic oracle with an independent DOM on fault-injected models; range correspondence on undeclared identifiers',
              text='C06_find_correct (the binary search returns the last entry at or before a position on every ordered table), C06_line_column (for every lexeme sequence of a text block - tokens, blanks, comments, LF / CRLF runs, continuations - and every byte offset, '
-                  'the looked-up entry has the block\'s path, the right line and a column equal to the distance from the start of that line), C06_table_ordered. Tied by predicting the exact range of undeclared identifiers from the block\'s lexemes with the extracted model, '
+                  'the looked-up entry has the block\'s path, the right line and a column equal to the distance from the start of that line), C06_table_ordered, C06_xpath_selects_the_element (the path string - tag plus count of same-tag siblings begun so far - read as an XPath selects exactly the element it was computed at, for every tree obeying the DTD multiplicities). Tied by predicting the exact range of undeclared identifiers from the block\'s lexemes with the extracted model, '
                   'and by checking every diagnostic of ~1600 fault-injected models (7 fault kinds at token positions, 5 layouts) against xml.etree: unique element, line inside its text, columns inside the line, attribution to the faulted block.',
              design='4/C06',
              note='Trusted: hand model Position.v, the Python re-implementation of lexeme boundaries, xml.etree. The XPath construction (sibling counting) is decided by the DOM oracle only. Known finding: C06-string-literal-newline.'),
